@@ -162,11 +162,13 @@ def script_trickles(mode):
     return any(v.endswith("~") for k, v in script_fields(mode).items() if k in ("h", "v", "sv", "c", "k", "x"))
 
 
-def script(h="0+", v="0+", sv="n", c="0+", id=1, k="0+", x="0+", xo=0, fin=1, hg="-", chat="-", p="-", ck="ka", tr="-"):
+def script(h="0+", v="0+", sv="n", c="0+", id=1, k="0+", x="0+", xo=0, fin=1, hg="-", chat="-", p="-", ck="ka", tr="-", hk=""):
     """ck (what the unsolicited messages are) and tr (stages at which 'no answer' is played as an answer trickled byte by
     byte that never completes) concern the harness only: the model sees traffic resp. no complete answer"""
+    # hk (harness only): what a NEGATIVE first message is - a failed connection attempt event (default), a KeepAlive ("ka") or an
+    # empty tag report ("ro"); to the model it is a first message that is not a successful connection event
     return "script:d=0:h=%s:v=%s:sv=%s:c=%s:id=%d:k=%s:x=%s:xo=%d:fin=%d:hg=%s:chat=%s:p=%s:ck=%s:tr=%s" % (
-        h, v, sv, c, id, k, x, xo, fin, hg, chat, p, ck, tr)
+        h, v, sv, c, id, k, x, xo, fin, hg, chat, p, ck, tr) + (":hk=" + hk if hk else "")
 
 
 def script_fields(mode):
@@ -212,7 +214,10 @@ def named_scripts(r, chat):
     resp. KeepAlives / reader events / reports in turn, every [chat] ms), plus slow-but-correct hosts, hosts that
     chat for a while and then fall silent, and hosts that hang up"""
     out = []
-    stages = [("stall-neg", dict(v="-")), ("stall-setver", dict(sv="-")), ("refuse-setver", dict(sv="0-")),
+    stages = [("stall-hello", dict(h="-")),     # never sends anything
+              ("wrong-hello", dict(h="0-")),    # a failed connection attempt / other messages in place of the connection event
+              ("wrong-hello-ka", dict(h="0-", hk="ka")), ("wrong-hello-ro", dict(h="0-", hk="ro")),
+              ("stall-neg", dict(v="-")), ("stall-setver", dict(sv="-")), ("refuse-setver", dict(sv="0-")),
               ("stall-config", dict(c="-")), ("stall-caps", dict(k="-")),
               ("refuse-config", dict(c="0-")), ("refuse-caps", dict(k="0-")),
               ("ignore-close", dict(x="-", fin=0)), ("reject-close", dict(x="0-", xo=0, fin=0)),
@@ -424,7 +429,7 @@ def scenarios(rnd, thorough):
     # than the read deadline, so that the deadline never fires): one such host among well-behaved ones ...
     named = dict(named_scripts(SCRIPT_TIMEOUT_MS, CHAT_MS))
     chatty_budget = 1000 + 5 * SCRIPT_TIMEOUT_MS + SEND_TIMEOUT_MS + SLACK_MS
-    quick_names = ["reject-close+ka", "stall-config+mix", "ignore-close+ka", "payload-trickle-config:just-inside"]
+    quick_names = ["reject-close+ka", "stall-config+mix", "ignore-close+ka", "payload-trickle-config:just-inside", "wrong-hello-ka+ka"]
     for name in (sorted(n for n in named if "+" in n or "payload-trickle" in n) if thorough else quick_names):
         k += 1
         H = [mk_host(k, 1, "refuse", rnd), mk_host(k, 2, "correct", rnd), mk_host(k, 3, named[name], rnd),
